@@ -229,6 +229,18 @@ def workload(tier, seed, scale=1.0):
             for sv in svals:
                 cmds.append(cmd_sf('C02', 'mul', ty, a, sv, 'U', cell=('sf', 'mul', ty, n, sv.bit_length())))
                 cmds.append(cmd_sf('C02', 'mul', ty, -a, sv, 'I', cell=('sf', 'mulI', ty, n, sv.bit_length())))
+    # every scalar type at its extremes (MIN, MIN+1, MAX, 2^k +- 1) through every form incl. the compound-assignment ones
+    from ..arith import UTYPES, ITYPES, scalar_extremes
+    for ty in UTYPES + ITYPES:
+        ext = scalar_extremes(ty)
+        for sv in (ext if tier != 'quick' else ext[:3] + ext[-3:] + rnd.sample(ext, 3)):
+            for n in (0, 1, 2, 5):
+                if scale < 1.0 and rnd.random() > scale:
+                    continue
+                a = rand_digits(rnd, n, 0)
+                if ty in UTYPES:
+                    cmds.append(cmd_sf('C02', 'mul', ty, a, sv, 'U', cell=('sf-ext', 'mul', ty, n, sv.bit_length())))
+                cmds.append(cmd_sf('C02', 'mul', ty, rnd.choice((1, -1)) * a, sv, 'I', cell=('sf-ext', 'mulI', ty, n, sv.bit_length(), sv < 0)))
     # special-value pool pairs
     from ..core import special_values
     pool = special_values()
